@@ -70,7 +70,7 @@ func refAnswer(eco, renc, venc string) string {
 // patch, `1.2.x-a`, where it means nothing).
 func NpmValid(r Range) bool {
 	okp := func(p Partial) bool {
-		return (len(p.Pre) == 0 && p.Build == "") || !isPartial(p)
+		return len(p.Pre) == 0 || !isPartial(p)
 	}
 	for _, a := range r.Alts {
 		if a.Hyphen {
